@@ -92,7 +92,9 @@ class NodeParser(PushParser):
         try:
             item = queue[-1]
             if isinstance(item, ElementNode) and qname in item.meta.wrappers:
-                child = cast(XmlNode, WrapperNode(parent=item, qname=qname))
+                child = cast(
+                    XmlNode, WrapperNode(parent=item, qname=qname, ns_map=ns_map)
+                )
             else:
                 child = item.child(qname, attrs, ns_map, len(objects))
         except IndexError:
